@@ -233,6 +233,9 @@ func (r *NgReader) readOption() error {
 	return nil
 }
 
+// errNgShortOption is returned for an option whose value is shorter than the fixed size it is parsed as
+var errNgShortOption = errors.New("pcapng option value too short")
+
 // readSectionHeader parses the full section header and implements section skipping in case of version mismatch
 // if needed, the first interface is read
 func (r *NgReader) readSectionHeader() error {
@@ -398,12 +401,20 @@ OPTIONS:
 			intf.Description = string(r.currentOption.value)
 		case ngOptionCodeInterfaceFilter:
 			// ignore filter type (first byte) since it is not specified
-			intf.Filter = string(r.currentOption.value[1:])
+			if len(r.currentOption.value) > 0 {
+				intf.Filter = string(r.currentOption.value[1:])
+			}
 		case ngOptionCodeInterfaceOS:
 			intf.OS = string(r.currentOption.value)
 		case ngOptionCodeInterfaceTimestampOffset:
+			if len(r.currentOption.value) < 8 {
+				return errNgShortOption
+			}
 			intf.TimestampOffset = r.getUint64(r.currentOption.value[:8])
 		case ngOptionCodeInterfaceTimestampResolution:
+			if len(r.currentOption.value) < 1 {
+				return errNgShortOption
+			}
 			intf.TimestampResolution = NgResolution(r.currentOption.value[0])
 		}
 	}
@@ -412,6 +423,11 @@ OPTIONS:
 	}
 	if intf.TimestampResolution == 0 {
 		intf.TimestampResolution = 6
+	}
+
+	// the divisor 2^e or 10^e must fit into 64 bits
+	if e := intf.TimestampResolution.Exponent(); (intf.TimestampResolution.Binary() && e > 63) || (!intf.TimestampResolution.Binary() && e > 19) {
+		return fmt.Errorf("Unsupported timestamp resolution %#x", uint8(intf.TimestampResolution))
 	}
 
 	//parse options
@@ -468,14 +484,26 @@ OPTIONS:
 		case ngOptionCodeComment:
 			stats.Comment = string(r.currentOption.value)
 		case ngOptionCodeInterfaceStatisticsStartTime:
+			if len(r.currentOption.value) < 8 {
+				return errNgShortOption
+			}
 			ts = uint64(r.getUint32(r.currentOption.value[:4]))<<32 | uint64(r.getUint32(r.currentOption.value[4:8]))
 			stats.StartTime = time.Unix(r.convertTime(ifaceID, ts)).UTC()
 		case ngOptionCodeInterfaceStatisticsEndTime:
+			if len(r.currentOption.value) < 8 {
+				return errNgShortOption
+			}
 			ts = uint64(r.getUint32(r.currentOption.value[:4]))<<32 | uint64(r.getUint32(r.currentOption.value[4:8]))
 			stats.EndTime = time.Unix(r.convertTime(ifaceID, ts)).UTC()
 		case ngOptionCodeInterfaceStatisticsInterfaceReceived:
+			if len(r.currentOption.value) < 8 {
+				return errNgShortOption
+			}
 			stats.PacketsReceived = r.getUint64(r.currentOption.value[:8])
 		case ngOptionCodeInterfaceStatisticsInterfaceDropped:
+			if len(r.currentOption.value) < 8 {
+				return errNgShortOption
+			}
 			stats.PacketsDropped = r.getUint64(r.currentOption.value[:8])
 		}
 	}
@@ -593,10 +621,16 @@ OPTIONS:
 		case ngOptionCodeComment:
 			opts.Comments = append(opts.Comments, string(r.currentOption.value))
 		case ngOptionCodeEpbFlags:
+			if len(r.currentOption.value) < 4 {
+				return opts, errNgShortOption
+			}
 			flags := NgEpbFlags{}
 			flags.FromUint32(binary.LittleEndian.Uint32(r.currentOption.value))
 			opts.Flags = &flags
 		case ngOptionCodeEpbHash:
+			if len(r.currentOption.value) < 1 {
+				return opts, errNgShortOption
+			}
 			v := make([]byte, len(r.currentOption.value)-1)
 			copy(v, r.currentOption.value[1:])
 			opts.Hashes = append(opts.Hashes, NgEpbHash{
@@ -604,15 +638,27 @@ OPTIONS:
 				Hash:      v,
 			})
 		case ngOptionCodeEpbDropCount:
+			if len(r.currentOption.value) < 8 {
+				return opts, errNgShortOption
+			}
 			v := binary.LittleEndian.Uint64(r.currentOption.value)
 			opts.DropCount = &v
 		case ngOptionCodeEpbPacketID:
+			if len(r.currentOption.value) < 8 {
+				return opts, errNgShortOption
+			}
 			v := binary.LittleEndian.Uint64(r.currentOption.value)
 			opts.PacketID = &v
 		case ngOptionCodeEpbQueue:
+			if len(r.currentOption.value) < 4 {
+				return opts, errNgShortOption
+			}
 			v := binary.LittleEndian.Uint32(r.currentOption.value)
 			opts.Queue = &v
 		case ngOptionCodeEpbVerdict:
+			if len(r.currentOption.value) < 1 {
+				return opts, errNgShortOption
+			}
 			v := make([]byte, len(r.currentOption.value)-1)
 			copy(v, r.currentOption.value[1:])
 			opts.Verdicts = append(opts.Verdicts, NgEpbVerdict{
